@@ -17,4 +17,25 @@ def keyV1 : List String :=
 theorem s3_names : BR.Gen.s3_objectKeyV2 = keyV2 ∧ BR.Gen.s3_objectKeyV1 = keyV1 := by decide
 theorem azblob_names : BR.Gen.azblob_objectKeyV2 = keyV2 ∧ BR.Gen.azblob_objectKeyV1 = keyV1 := by decide
 
+/-- where the clients derive the name they send to the back end.  s3 and http use the naming
+function's result as it is; azblob (since it was added in 2.x) prepends the prefix a second time to
+the result of `objectKeyV*`, which has already joined it — that doubled prefix is the published
+layout of existing containers, so it is pinned here as it is. -/
+def keySites : List (String × String × List String) := [
+  ("cache/s3proxy/s3proxy.go", "UploadFile", ["arg c.objectKey(item.Hash, item.Kind)"]),
+  ("cache/s3proxy/s3proxy.go", "Get", ["arg c.objectKey(hash, kind)", "arg c.objectKey(hash, kind)"]),
+  ("cache/s3proxy/s3proxy.go", "Contains", ["arg c.objectKey(hash, kind)"]),
+  ("cache/s3proxy/s3proxy.go", "New", ["c.objectKey returns objectKeyV2(c.prefix, hash, kind)", "c.objectKey returns objectKeyV1(c.prefix, hash, kind)"]),
+  ("cache/azblobproxy/azblobproxy.go", "UploadFile", ["key = c.objectKey(item.Hash, item.Kind)", "if c.prefix != \"\"", "key = c.prefix + \"/\" + key"]),
+  ("cache/azblobproxy/azblobproxy.go", "Get", ["key = c.objectKey(hash, kind)", "if c.prefix != \"\"", "key = c.prefix + \"/\" + key"]),
+  ("cache/azblobproxy/azblobproxy.go", "Contains", ["key = c.objectKey(hash, kind)", "if c.prefix != \"\"", "key = c.prefix + \"/\" + key"]),
+  ("cache/azblobproxy/azblobproxy.go", "New", ["c.objectKey returns objectKeyV2(c.prefix, hash, kind)", "c.objectKey returns objectKeyV1(c.prefix, hash, kind)"]),
+  ("cache/httpproxy/httpproxy.go", "UploadFile", ["url = r.requestURL(item.Hash, item.Kind)"]),
+  ("cache/httpproxy/httpproxy.go", "Get", ["url = r.requestURL(hash, kind)"]),
+  ("cache/httpproxy/httpproxy.go", "Contains", ["url = r.requestURL(hash, kind)"]),
+  ("cache/httpproxy/httpproxy.go", "New", ["0: kind == cache.CAS", "proxy.requestURL returns fmt.Sprintf(\"%s/cas.v2/%s\", proxy.baseURL, hash)", "proxy.requestURL returns fmt.Sprintf(\"%s/%s/%s\", proxy.baseURL, kind, hash)", "proxy.requestURL returns fmt.Sprintf(\"%s/%s/%s\", proxy.baseURL, kind, hash)"])]
+
+/-- upload, download and existence check of each client use one and the same derivation -/
+theorem key_sites_pinned : BR.Gen.backend_key_sites = keySites := by decide
+
 end BR.Bridge.Backend
